@@ -30,7 +30,7 @@ func mustClause(kind, src string, props []string, line string) *Clause {
 		}
 	}
 	if line == "schema:err" && cl.Name != "" {
-		for _, gv := range []string{"wfailed", "cancelled"} {
+		for _, gv := range []string{"wfailed", "cancelled", "rdfailed"} {
 			if strings.Contains(src, gv) {
 				cl.Name += ":" + gv
 			}
@@ -233,8 +233,13 @@ func ApplySchemas(w *World, schemas []string, prop string) {
 	props := []string{prop}
 	for _, s := range schemas {
 		switch {
-		case s == "err":
+		case s == "err" || s == "rerr":
 			// S-ERR: a destination-write failure or an observed cancellation inside f surfaces as f's error
+			// S-RERR: the same discipline for a failed storage read (ghost flag rdfailed, set by Data.Read)
+			gvs := []string{"wfailed", "cancelled"}
+			if s == "rerr" {
+				gvs = []string{"rdfailed"}
+			}
 			var names []string
 			for n := range w.Fns {
 				names = append(names, n)
@@ -242,7 +247,7 @@ func ApplySchemas(w *World, schemas []string, prop string) {
 			sort.Strings(names)
 			for _, n := range names {
 				f := w.Fns[n]
-				for _, gv := range []string{"wfailed", "cancelled"} {
+				for _, gv := range gvs {
 					if !w.modsets[f]["G$"+gv] {
 						continue
 					}
